@@ -61,6 +61,15 @@ CHECKS.update({
             "DESIGN.md section 4, C04"),
 })
 
+CHECKS.update({
+    "C06": ("Hypothesis-generated ACL pairs and trees against an independent reference coverage model; idempotence / union metamorphic relations",
+            "Generated ACL texts (nesting, *, ~, %global, %cant_delete, two generators merged through the production tagging) and trees "
+            "built partly from the ACL rules; apply_acl must equal the reference filter as an ordered tree, be idempotent, be monotone "
+            "under ACL union, and strict mode must raise exactly for the reference's first uncovered row, naming it. Exploration.",
+            "Trusted: vf/model/refacl.py + refmatch.py; %global rules restricted to catch-alls and literal leaves; no %prio.",
+            "DESIGN.md section 4, C06"),
+})
+
 NOT_YET = {}
 
 
